@@ -228,6 +228,16 @@ func (c *c06Ctx) checkLoss(faulted [][]byte, lost map[int]bool, what string) str
 	}
 	for pid, g := range got {
 		if _, ok := c.clean[pid]; !ok && len(g) > 0 {
+			// a PID that delivers nothing loss-free (private / near-miss units only): the same K1 shape applies
+			k1 := lossPID[pid]
+			for _, it := range gotItems[pid] {
+				if it.FirstPacket == nil || it.FirstPacket.Header.PayloadUnitStartIndicator || it.PES == nil {
+					k1 = false
+				}
+			}
+			if k1 && c.rec.Known("K1-fragment-delivered-as-PES", "after packet loss a unit fragment that begins 00 00 01 is delivered as a PES decoded from elementary stream bytes") {
+				return ""
+			}
 			return fmt.Sprintf("%s: items appeared on PID %#x", what, pid)
 		}
 	}
